@@ -130,10 +130,46 @@ Definition model_site (d : mdomain) (s : sites) (names : list string) (kind t r 
     | Ok st => bit (atom_in ("hit", [const_of t]) (facts st)) | Err _ => "E"%char end
   else "?"%char.
 
+(* ---------- the same object / constant at two or three positions ---------- *)
+Definition starts_with (pre s : string) : bool := String.eqb (substring 0 (String.length pre) s) pre.
+Definition is_rep_kind (k : string) : bool := starts_with "rep" k.
+Definition rep_arity (k : string) : nat := if starts_with "rep3" k then 3 else 2.
+Definition rep_what (k : string) : string :=            (* the text after the first '_' *)
+  if starts_with "rep3m_" k then substring 6 (String.length k) k else substring 5 (String.length k) k.
+
+Fixpoint tuples (names : list string) (n : nat) : list (list string) :=
+  match n with
+  | 0 => [[]]
+  | S m => flat_map (fun x => map (fun r => x :: r) (tuples names m)) names
+  end.
+(* row-major over (T, R1, ..., Rn) *)
+Definition cube (names : list string) (n : nat) (f : string -> list string -> ascii) : string :=
+  t2s (flat_map (fun t => map (fun rs => f t rs) (tuples names n)) names).
+
+Definition rep_args (k who : string) : list string :=
+  if starts_with "rep3m" k then [who; "zz"; who] else repeat who (rep_arity k).
+Definition rep_symbol (k : string) (rs : list string) : string :=
+  (if Nat.eqb (rep_arity k) 2 then "b_" else "c_") +++ join "_" rs.
+
+Definition model_rep (d : mdomain) (s : sites) (k t : string) (rs : list string) : ascii :=
+  let what := rep_what k in
+  let who := (if String.eqb what "cfact" || String.eqb what "cfluent" then const_of t else obj_of t) in
+  let args := rep_args k who in
+  if String.eqb what "fact" || String.eqb what "goal" || String.eqb what "cfact" then
+    ok_bit (problem_fact d (s_objs s) (rep_symbol k rs) args)
+  else if String.eqb what "fluent" || String.eqb what "cfluent" then
+    ok_bit (problem_fluent d (s_objs s) ("f" +++ rep_symbol k rs) args)
+  else if String.eqb what "tfluent" then
+    ok_bit (trajectory_fluent d (s_objs s) ("f" +++ rep_symbol k rs) args)
+  else "?"%char.
+
 Definition model_sites (c : case) (s : sites) : list (string * string) :=
   match site_domain s with
   | Err _ => map (fun ko => (fst ko, "")) (s_obs s)
-  | Ok d => map (fun ko => (fst ko, matrix (c_names c) (model_site d s (c_names c) (fst ko)))) (s_obs s)
+  | Ok d => map (fun ko => (fst ko,
+                           if is_rep_kind (fst ko)
+                           then cube (c_names c) (rep_arity (fst ko)) (model_rep d s (fst ko))
+                           else matrix (c_names c) (model_site d s (c_names c) (fst ko)))) (s_obs s)
   end.
 
 (* the text really contains the section the spec is asked about *)
@@ -175,7 +211,17 @@ Definition spec_edges (c : case) : string :=
 
 (* kinds the property speaks about; 'tfact' (trajectory facts are not type-checked at all) is compared with the
    model only *)
-Definition judged_kind (k : string) : bool := negb (String.eqb k "tfact").
+Definition judged_kind (k : string) : bool := negb (String.eqb k "tfact") && negb (String.eqb k "rep2_tfluent").
+
+(* repeated arguments: accepted iff EVERY position's type is a subtype of the type required at that position
+   ('zz' in the middle of the rep3m pattern has the type object) *)
+Definition spec_rep (c : case) (k : string) : string :=
+  cube (c_names c) (rep_arity k)
+       (fun t rs =>
+          let tys := if starts_with "rep3m" k then [t; "object"; t] else repeat t (rep_arity k) in
+          bit (forallb (fun tr => closure_b (the_decls c) (fst tr) (snd tr)) (combine tys rs))).
+Definition spec_site (c : case) (k : string) : string :=
+  if is_rep_kind k then spec_rep c k else matrix (c_names c) (fun x y => bit (closure_b (the_decls c) x y)).
 
 Definition plain_b (c : case) : bool :=
   forallb (fun n => negb (String.eqb n "-")) (flat_map fst (c_groups c) ++ c_trailing c).
@@ -190,7 +236,7 @@ Definition spec_ok (c : case) : bool :=
     String.eqb (spec_edges c) (c_edges c) &&
     match c_sites c with
     | None => true
-    | Some s => forallb (fun ko => negb (judged_kind (fst ko)) || String.eqb (spec_matrix c) (snd ko)) (s_obs s)
+    | Some s => forallb (fun ko => negb (judged_kind (fst ko)) || String.eqb (spec_site c (fst ko)) (snd ko)) (s_obs s)
     end
   else if is_cyclic c && nodup_b (map fst (the_decls c)) then
     match c_types c with Raised => true | Returned _ => false end
